@@ -1,7 +1,9 @@
 #!/usr/bin/env python3
 """Mutant matrix (both-ways test of the checker, thorough tier).
 
-Each mutant in /verif/checker/mutants.json is an exact (file, old, new) edit.
+Each mutant in /verif/checker/mutants.json is an exact (file, old, new) edit,
+or a "patch" (a kept seeded change under seeded/, or a benign refactoring
+under benign/, both written by independent sub-agents).
 It is applied to a scratch copy of the CURRENT /repo tree (outside /repo and
 /verif), the copy must still build, and the property's check must report a
 VIOLATION that names the expected rule.  An entry with "expect": "pass" is
@@ -22,7 +24,11 @@ def run_one(m, repo, tests):
     dst = os.path.join(tmp, "repo")
     try:
         subprocess.check_call(["rsync", "-a", "--exclude", ".git", repo.rstrip("/") + "/", dst + "/"])
-        for e in m["edits"]:
+        if m.get("patch"):
+            pa = subprocess.run(["git", "apply", "--whitespace=nowarn", os.path.join(HERE, m["patch"])], cwd=dst, capture_output=True, text=True)
+            if pa.returncode != 0:
+                return "stale", "patch no longer applies: " + m["patch"]
+        for e in m.get("edits", []):
             p = os.path.join(dst, e["file"])
             s = open(p).read()
             if s.count(e["old"]) < 1:
